@@ -51,24 +51,24 @@ Qed.
 
 Lemma commit1_form s u nrev nfsize nmroot fault s' :
   step s (Commit1 u nrev nfsize nmroot fault) = (s', ORes (Ok tt)) ->
-  exists x c t', alookup u (upds s) = Some x /\ alookup (u_cid x) (t1 (dbs s)) = Some c /\
-    store_replay (stored (dbs s)) (rows c) (u_old x) (u_acts x) None = Ok (t', None) /\
-    s' = set_upds (set_cache (set_dbs s (set_t1 (dbs s)
-            (aset (u_cid x) (with_rows (with_rev c nrev nfsize nmroot) t') (t1 (dbs s)))))
+  exists x c t' ns', alookup u (upds s) = Some x /\ alookup (u_cid x) (t1 (dbs s)) = Some c /\
+    store_replay (stored (dbs s)) (rows c) (u_old x) (nsec (dbs s)) (u_acts x) None = Ok ((t', ns'), None) /\
+    s' = set_upds (set_cache (set_dbs s (set_nsec (set_t1 (dbs s)
+            (aset (u_cid x) (with_rows (with_rev c nrev nfsize nmroot) t') (t1 (dbs s)))) ns'))
             (aset (u_cid x) (u_roots x) (cache s)))
             (aset u {| u_cid := u_cid x; u_roots := u_roots x; u_old := u_roots x; u_acts := [] |} (upds s)).
 Proof.
   cbn [step]. destruct (alookup u (upds s)) as [x|]; [|discriminate]. intros H.
   apply outcome_ok in H as (d' & E & ->); [|apply fok_m_commit1].
-  apply store_revise1_ok in E as (c & t' & Lc & R & ->). now exists x, c, t'.
+  apply store_revise1_ok in E as (c & t' & ns' & Lc & R & ->). now exists x, c, t', ns'.
 Qed.
 
 Lemma revise2_form s id c newroots mnew rsig hsig fault s' :
   step s (Revise2 id c newroots mnew rsig hsig fault) = (s', ORes (Ok tt)) ->
-  exists e t', alookup id (t2 (dbs s)) = Some e /\ rto e = None /\
+  exists e t' ns', alookup id (t2 (dbs s)) = Some e /\ rto e = None /\
     r2_fsize c = sector_size * nlen newroots /\ r2_mroot c = mnew /\
-    v2_diff (stored (dbs s)) (rows e) (cache_get s id) newroots None = Ok (t', None) /\
-    s' = set_cache (set_dbs s (set_t2 (dbs s) (aset id (with_rows (with_rv2 e c) t') (t2 (dbs s)))))
+    v2_diff (stored (dbs s)) (rows e) (cache_get s id) newroots (nsec (dbs s)) None = Ok ((t', ns'), None) /\
+    s' = set_cache (set_dbs s (set_nsec (set_t2 (dbs s) (aset id (with_rows (with_rv2 e c) t') (t2 (dbs s)))) ns'))
            (aset id newroots (cache s)).
 Proof.
   cbn [step]. intros H. apply outcome_ok in H as (d' & E & ->); [|apply fok_m_revise2].
@@ -84,9 +84,9 @@ Proof.
   destruct (r2_cap c <? r2_fsize c); [discriminate|].
   destruct (negb rsig); [discriminate|]. destruct (negb hsig); [discriminate|].
   destruct (negb (r2_mroot c =? mnew)) eqn:Emr; [discriminate|].
-  apply store_revise2_ok in E as (e' & t' & Le' & R & ->).
+  apply store_revise2_ok in E as (e' & t' & ns' & Le' & R & ->).
   rewrite Le in Le'; injection Le' as <-.
-  exists e, t'. repeat split; auto; try lia.
+  exists e, t', ns'. repeat split; auto; try lia.
   destruct (rto e); [discriminate|reflexivity].
 Qed.
 
@@ -178,16 +178,16 @@ Qed.
 
 (** * accepted modifications are accepted *)
 
-Lemma store_revise1_run d id nrev nfsize nmroot old acts c t' :
-  alookup id (t1 d) = Some c -> store_replay (stored d) (rows c) old acts None = Ok (t', None) ->
+Lemma store_revise1_run d id nrev nfsize nmroot old acts c t' ns' :
+  alookup id (t1 d) = Some c -> store_replay (stored d) (rows c) old (nsec d) acts None = Ok ((t', ns'), None) ->
   store_revise1 d id nrev nfsize nmroot old acts None =
-  Ok (set_t1 d (aset id (with_rows (with_rev c nrev nfsize nmroot) t') (t1 d)), None).
+  Ok (set_nsec (set_t1 d (aset id (with_rows (with_rev c nrev nfsize nmroot) t') (t1 d))) ns', None).
 Proof. intros L R. cbv [store_revise1 transaction mbind stmt ret lift]. now rewrite L, R. Qed.
 
-Lemma store_revise2_run d id c old new e t' :
-  alookup id (t2 d) = Some e -> v2_diff (stored d) (rows e) old new None = Ok (t', None) ->
+Lemma store_revise2_run d id c old new e t' ns' :
+  alookup id (t2 d) = Some e -> v2_diff (stored d) (rows e) old new (nsec d) None = Ok ((t', ns'), None) ->
   store_revise2 d id c old new None =
-  Ok (set_t2 d (aset id (with_rows (with_rv2 e c) t') (t2 d)), None).
+  Ok (set_nsec (set_t2 d (aset id (with_rows (with_rv2 e c) t') (t2 d))) ns', None).
 Proof. intros L R. cbv [store_revise2 transaction mbind stmt ret lift]. now rewrite L, R. Qed.
 
 Lemma store_get_run t id c : alookup id t = Some c -> store_get t id None = Ok (c, None).
@@ -202,8 +202,12 @@ Lemma commit_accepted s u x nrev nfsize nmroot :
 Proof.
   intros I L S. destruct (inv_upd meta s I u x L) as ((c & Lc & Rc) & Hold & Hfold & _).
   destruct (live_rows meta _ _ _ _ _ (inv_t1 meta s I) Lc Rc) as (Hrows & _).
+  assert (Hle : nlen (u_old x) <= nsec (dbs s)).
+  { pose proof (total_ge _ _ _ Lc) as Hg. rewrite Hrows, <- Hold, nlen_tbl_of in Hg.
+    rewrite (inv_nsec meta s I). lia. }
   cbn [step]. rewrite L. unfold m_commit1.
-  rewrite (store_revise1_run _ _ _ _ _ _ _ c (tbl_of (u_roots x)) Lc).
+  rewrite (store_revise1_run _ _ _ _ _ _ _ c (tbl_of (u_roots x))
+             (nsec (dbs s) + nlen (u_roots x) - nlen (u_old x)) Lc).
   - cbn [outcome snd fst]. split; [reflexivity|].
     unfold cache_get; cbn [cache set_upds set_cache]. now rewrite alookup_aset_same.
   - rewrite Hrows, <- Hold. now apply replay_refines_list.
@@ -217,10 +221,13 @@ Lemma commit_missing_rejected s u x nrev nfsize nmroot :
 Proof.
   intros I L S. destruct (inv_upd meta s I u x L) as ((c & Lc & Rc) & Hold & Hfold & _).
   destruct (live_rows meta _ _ _ _ _ (inv_t1 meta s I) Lc Rc) as (Hrows & _).
+  assert (Hle : nlen (u_old x) <= nsec (dbs s)).
+  { pose proof (total_ge _ _ _ Lc) as Hg. rewrite Hrows, <- Hold, nlen_tbl_of in Hg.
+    rewrite (inv_nsec meta s I). lia. }
   cbn [step]. rewrite L. unfold m_commit1.
   assert (E : store_revise1 (dbs s) (u_cid x) nrev nfsize nmroot (u_old x) (u_acts x) None = Err EOther).
   { cbv [store_revise1 transaction mbind stmt ret lift]. rewrite Lc, Hrows, <- Hold.
-    now rewrite (replay_missing _ _ _ _ Hfold S). }
+    now rewrite (replay_missing _ _ _ _ _ Hfold Hle S). }
   now rewrite E.
 Qed.
 
@@ -240,7 +247,11 @@ Proof.
   replace (r2_fsize c =? sector_size * nlen newroots) with true by lia.
   replace (r2_cap c <? r2_fsize c) with false by lia.
   replace (r2_mroot c =? meta newroots) with true by lia. cbn [negb].
-  rewrite (store_revise2_run _ _ _ _ _ e (tbl_of newroots) L).
+  assert (Hle : nlen (cache_get s id) <= nsec (dbs s)).
+  { pose proof (total_ge _ _ _ L) as Hg. rewrite Hrows, nlen_tbl_of in Hg.
+    rewrite (inv_nsec meta s I). lia. }
+  rewrite (store_revise2_run _ _ _ _ _ e (tbl_of newroots)
+             (nsec (dbs s) + nlen newroots - nlen (cache_get s id)) L).
   - cbn [outcome snd fst]. split; [reflexivity|].
     unfold cache_get; cbn [cache set_cache]. now rewrite alookup_aset_same.
   - rewrite Hrows. now apply v2_diff_correct.
@@ -378,12 +389,14 @@ Proof.
     destruct (upd_apply (u_roots u0) a); apply Same; reflexivity.
   - (* Commit1 *)
     destruct (step s (Commit1 u nrev nfsize nmroot fault)) as [s' ob] eqn:E. cbn [fst].
-    destruct ob as [[[]|e|]| | | |];
+    destruct ob as [[[]|e|]| | | | |];
       try (pose proof E as E'; apply step_error_unchanged in E'; [subst s'; now exists c|discriminate]).
-    + apply commit1_form in E as (x & c1 & t' & Lu & Lc1 & _ & ->).
-      exists c. cbn [dbs set_upds set_cache set_dbs set_t1 t1]. rewrite alookup_aset.
+    + apply commit1_form in E as (x & c1 & t' & ns' & Lu & Lc1 & _ & ->).
+      exists c. cbn [dbs set_upds set_cache set_dbs set_t1 set_nsec t1]. rewrite alookup_aset.
       destruct (id =? u_cid x) eqn:Ei; [|auto]. apply N.eqb_eq in Ei; subst id.
       destruct (inv_upd meta s I u x Lu) as ((c2 & Lc2 & Rc2) & _). congruence.
+    + cbn [step] in E. destruct (alookup u (upds s)); [|discriminate]. unfold outcome in E.
+      destruct (m_commit1 s u0 nrev nfsize nmroot fault) as [[? ?]| |]; discriminate.
     + cbn [step] in E. destruct (alookup u (upds s)); [|discriminate]. unfold outcome in E.
       destruct (m_commit1 s u0 nrev nfsize nmroot fault) as [[? ?]| |]; discriminate.
     + cbn [step] in E. destruct (alookup u (upds s)); [|discriminate]. unfold outcome in E.
@@ -395,7 +408,7 @@ Proof.
   - (* Renew1 *)
     destruct D as (_ & _ & _ & (c1 & Lc1 & Rv1) & _).
     destruct (step s (Renew1 old new crev cfsize cmroot nrev nfsize nmroot nws mold fault)) as [s' ob] eqn:E.
-    cbn [fst]. destruct ob as [[[]|e|]| | | |];
+    cbn [fst]. destruct ob as [[[]|e|]| | | | |];
       try (pose proof E as E'; apply step_error_unchanged in E'; [subst s'; now exists c|discriminate]);
       try (cbn [step] in E; unfold outcome in E;
            match type of E with (match ?m with _ => _ end) = _ => destruct m as [[? ?]| |]; discriminate end).
@@ -410,14 +423,14 @@ Proof.
     replace (id =? old) with false by lia. replace (id =? new) with false by lia. auto.
   - (* Revise2 *)
     destruct (step s (Revise2 id0 c0 newroots mnew rsig hsig fault)) as [s' ob] eqn:E. cbn [fst].
-    destruct ob as [[[]|e|]| | | |];
+    destruct ob as [[[]|e|]| | | | |];
       try (pose proof E as E'; apply step_error_unchanged in E'; [subst s'; now exists c|discriminate]);
       try (cbn [step] in E; unfold outcome in E;
            match type of E with (match ?m with _ => _ end) = _ => destruct m as [[? ?]| |]; discriminate end).
-    apply revise2_form in E as (e & t' & _ & _ & _ & _ & _ & ->). apply Same. reflexivity.
+    apply revise2_form in E as (e & t' & ns' & _ & _ & _ & _ & _ & ->). apply Same. reflexivity.
   - (* Renew2 *)
     destruct (step s (Renew2 old new c0 mold wf fault)) as [s' ob] eqn:E. cbn [fst].
-    destruct ob as [[[]|e|]| | | |];
+    destruct ob as [[[]|e|]| | | | |];
       try (pose proof E as E'; apply step_error_unchanged in E'; [subst s'; now exists c|discriminate]);
       try (cbn [step] in E; unfold outcome in E;
            match type of E with (match ?m with _ => _ end) = _ => destruct m as [[? ?]| |]; discriminate end).
@@ -450,15 +463,15 @@ Proof.
     destruct (upd_apply (u_roots u0) a); apply Same; reflexivity.
   - (* Commit1 *)
     destruct (step s (Commit1 u nrev nfsize nmroot fault)) as [s' ob] eqn:E. cbn [fst].
-    destruct ob as [[[]|e|]| | | |];
+    destruct ob as [[[]|e|]| | | | |];
       try (pose proof E as E'; apply step_error_unchanged in E'; [subst s'; now exists c|discriminate]);
       try (cbn [step] in E; destruct (alookup u (upds s)); [|discriminate]; unfold outcome in E;
            match type of E with (match ?m with _ => _ end) = _ => destruct m as [[? ?]| |]; discriminate end).
-    apply commit1_form in E as (x & c1 & t' & _ & _ & _ & ->). apply Same. reflexivity.
+    apply commit1_form in E as (x & c1 & t' & ns' & _ & _ & _ & ->). apply Same. reflexivity.
   - (* Renew1 *)
     destruct D as (_ & _ & _ & (c1 & Lc1 & Rv1) & _).
     destruct (step s (Renew1 old new crev cfsize cmroot nrev nfsize nmroot nws mold fault)) as [s' ob] eqn:E.
-    cbn [fst]. destruct ob as [[[]|e|]| | | |];
+    cbn [fst]. destruct ob as [[[]|e|]| | | | |];
       try (pose proof E as E'; apply step_error_unchanged in E'; [subst s'; now exists c|discriminate]);
       try (cbn [step] in E; unfold outcome in E;
            match type of E with (match ?m with _ => _ end) = _ => destruct m as [[? ?]| |]; discriminate end).
@@ -466,17 +479,17 @@ Proof.
     apply Same. reflexivity.
   - (* Revise2 *)
     destruct (step s (Revise2 id0 c0 newroots mnew rsig hsig fault)) as [s' ob] eqn:E. cbn [fst].
-    destruct ob as [[[]|e|]| | | |];
+    destruct ob as [[[]|e|]| | | | |];
       try (pose proof E as E'; apply step_error_unchanged in E'; [subst s'; now exists c|discriminate]);
       try (cbn [step] in E; unfold outcome in E;
            match type of E with (match ?m with _ => _ end) = _ => destruct m as [[? ?]| |]; discriminate end).
-    apply revise2_form in E as (e & t' & Le & Re & _ & _ & _ & ->).
-    exists c. cbn [dbs set_cache set_dbs set_t2 t2]. rewrite alookup_aset.
+    apply revise2_form in E as (e & t' & ns' & Le & Re & _ & _ & _ & ->).
+    exists c. cbn [dbs set_cache set_dbs set_t2 set_nsec t2]. rewrite alookup_aset.
     destruct (id =? id0) eqn:Ei; [|auto]. apply N.eqb_eq in Ei; subst. congruence.
   - (* Renew2 *)
     destruct D as (_ & _ & Hdet).
     destruct (step s (Renew2 old new c0 mold wf fault)) as [s' ob] eqn:E. cbn [fst].
-    destruct ob as [[[]|e|]| | | |];
+    destruct ob as [[[]|e|]| | | | |];
       try (pose proof E as E'; apply step_error_unchanged in E'; [subst s'; now exists c|discriminate]);
       try (cbn [step] in E; unfold outcome in E;
            match type of E with (match ?m with _ => _ end) = _ => destruct m as [[? ?]| |]; discriminate end).
@@ -587,7 +600,7 @@ Proof.
     destruct (upd_apply (u_roots u0) a); apply Same; reflexivity.
   - cbn [step]. destruct (alookup u (upds s)) as [x|]; [|apply Same; reflexivity].
     apply Out; [apply fok_m_commit1|]. intros d' E. unfold m_commit1 in E.
-    apply store_revise1_ok in E as (c & t' & _ & _ & ->). reflexivity.
+    apply store_revise1_ok in E as (c & t' & ns' & _ & _ & ->). reflexivity.
   - cbn [step]. apply Out; [apply fok_m_renew1|]. intros d' E. unfold m_renew1 in E.
     repeat match type of E with (if ?b then _ else _) _ = _ => destruct b; [discriminate|] end.
     apply store_renew1_ok in E as (_ & c & _ & ->). reflexivity.
@@ -595,7 +608,7 @@ Proof.
     destruct (store_get (t2 (dbs s)) id None) as [[e k0]| |] eqn:Eg; try discriminate.
     apply store_get_ok in Eg as [_ ->].
     repeat match type of E with (if ?b then _ else _) _ = _ => destruct b; [discriminate|] end.
-    apply store_revise2_ok in E as (e' & t' & _ & _ & ->). reflexivity.
+    apply store_revise2_ok in E as (e' & t' & ns' & _ & _ & ->). reflexivity.
   - cbn [step]. apply Out; [apply fok_m_renew2|]. intros d' E. unfold m_renew2 in E.
     destruct (negb wf); [discriminate|]. unfold mbind in E.
     destruct (store_get (t2 (dbs s)) old None) as [[e k0]| |] eqn:Eg; try discriminate.
@@ -605,9 +618,120 @@ Proof.
   - cbn [step]. destruct (mem id (locks s)); [apply Same; reflexivity|].
     destruct (alookup id (t2 (dbs s))); apply Same; reflexivity.
   - cbn [step]. apply Out; [apply fok_store_revise1|]. intros d' E.
-    apply store_revise1_ok in E as (c & t' & _ & _ & ->). reflexivity.
+    apply store_revise1_ok in E as (c & t' & ns' & _ & _ & ->). reflexivity.
   - cbn [step]. apply Out; [apply fok_store_revise2|]. intros d' E.
-    apply store_revise2_ok in E as (c0 & t' & _ & _ & ->). reflexivity.
+    apply store_revise2_ok in E as (c0 & t' & ns' & _ & _ & ->). reflexivity.
+Qed.
+
+
+(** * no disciplined operation panics (the counter never underflows, no index runs out) *)
+
+Lemma v2_upserts_no_panic stored : forall new done old,
+  v2_upserts stored (tbl_of (done ++ old)) (nlen done) old new None <> Panic.
+Proof.
+  induction new as [|r new IH]; intros done old; [discriminate|].
+  rewrite v2_upserts_cons.
+  destruct ((match old with o :: _ => o =? r | [] => false end) || mem r stored); [apply IH|discriminate].
+Qed.
+
+Definition is_panic_obs (ob : obs) : bool :=
+  match ob with ORes Panic => true | OAct Panic _ => true | OLock2 Panic => true | _ => false end.
+
+Lemma none_no_panic_fault s o k :
+  (match o with
+   | Commit1 u a b c _ => is_panic_obs (snd (step s (Commit1 u a b c None))) = false
+   | Renew1 a b c d e f g h i j _ => is_panic_obs (snd (step s (Renew1 a b c d e f g h i j None))) = false
+   | Revise2 a b c d e f _ => is_panic_obs (snd (step s (Revise2 a b c d e f None))) = false
+   | Renew2 a b c d e _ => is_panic_obs (snd (step s (Renew2 a b c d e None))) = false
+   | _ => True
+   end) ->
+  match o with
+  | Commit1 u a b c _ => is_panic_obs (snd (step s (Commit1 u a b c (Some k)))) = false
+  | Renew1 a b c d e f g h i j _ => is_panic_obs (snd (step s (Renew1 a b c d e f g h i j (Some k)))) = false
+  | Revise2 a b c d e f _ => is_panic_obs (snd (step s (Revise2 a b c d e f (Some k)))) = false
+  | Renew2 a b c d e _ => is_panic_obs (snd (step s (Renew2 a b c d e (Some k)))) = false
+  | _ => True
+  end.
+Proof.
+  pose proof (fault_any_statement s o k) as F.
+  destruct o; auto; intros H; destruct F as [F|F]; rewrite F; auto.
+Qed.
+
+Theorem disciplined_never_panics s o : Inv s -> disc s o -> is_panic_obs (snd (step s o)) = false.
+Proof.
+  intros I D.
+  destruct o; try reflexivity.
+  - (* Form1 *) cbn [step]. unfold outcome.
+    match goal with |- context [store_add1 ?dd ?i ?cc None] => destruct (store_add1 dd i cc None) as [[d' k]|e|] eqn:E end;
+      try reflexivity.
+    exfalso. revert E. cbv [store_add1 transaction mbind stmt ret lift].
+    destruct (alookup id (t1 (dbs s))); discriminate.
+  - (* Form2 *) cbn [step]. unfold outcome.
+    destruct (store_add2 (dbs s) id (ct_of_rv2 c) None) as [[d' k]|e|] eqn:E; try reflexivity.
+    exfalso. revert E. cbv [store_add2 transaction mbind stmt ret lift].
+    destruct (alookup id (t2 (dbs s))); discriminate.
+  - (* Lock1 *) cbn [step]. destruct (mem id (locks s)); [reflexivity|].
+    destruct (alookup id (t1 (dbs s))); [|reflexivity]. destruct (good1 (height s) c); reflexivity.
+  - (* Unlock1 *) destruct D as (Hm & _). cbn [step]. now rewrite Hm.
+  - (* Act *) cbn [step]. destruct (alookup u (upds s)); [|reflexivity].
+    unfold upd_apply. destruct (upd_check (u_roots u0) a); reflexivity.
+  - (* Commit1 *)
+    assert (H0 : is_panic_obs (snd (step s (Commit1 u nrev nfsize nmroot None))) = false).
+    { destruct (alookup u (upds s)) as [x|] eqn:L; [|cbn [step]; now rewrite L].
+      destruct (acts_stored (stored (dbs s)) (u_acts x)) eqn:S.
+      - destruct (commit_accepted s u x nrev nfsize nmroot I L S) as [-> _]. reflexivity.
+      - rewrite (commit_missing_rejected s u x nrev nfsize nmroot I L S). reflexivity. }
+    destruct fault as [k|]; [|exact H0].
+    exact (none_no_panic_fault s (Commit1 u nrev nfsize nmroot None) k H0).
+  - (* Renew1 *)
+    assert (H0 : is_panic_obs (snd (step s (Renew1 old new crev cfsize cmroot nrev nfsize nmroot nws mold None))) = false).
+    { cbn [step]. unfold outcome, m_renew1.
+      repeat match goal with |- context [if ?b then _ else _] => destruct b; [reflexivity|] end.
+      cbv [store_renew1 transaction mbind stmt ret lift].
+      destruct (alookup new (t1 (dbs s))); [reflexivity|].
+      match goal with |- context [alookup old ?tt] => destruct (alookup old tt) end; reflexivity. }
+    destruct fault as [k|]; [|exact H0].
+    exact (none_no_panic_fault s (Renew1 old new crev cfsize cmroot nrev nfsize nmroot nws mold None) k H0).
+  - (* Revise2 *)
+    assert (H0 : is_panic_obs (snd (step s (Revise2 id c newroots mnew rsig hsig None))) = false).
+    { cbn [step]. unfold outcome, m_revise2, mbind.
+      destruct (store_get (t2 (dbs s)) id None) as [[e k0]|x|] eqn:Eg; [|reflexivity|].
+      2:{ exfalso. revert Eg. cbv [store_get transaction mbind stmt ret lift].
+          destruct (alookup id (t2 (dbs s))); discriminate. }
+      apply store_get_ok in Eg as [Le ->].
+      destruct (opt_is_some (rto e)) eqn:Rt; [reflexivity|].
+      repeat match goal with |- context [if ?b then _ else _] => destruct b; [reflexivity|] end.
+      assert (Re : rto e = None) by (destruct (rto e); [discriminate|reflexivity]).
+      destruct (live_rows meta _ _ _ _ _ (inv_t2 meta s I) Le Re) as (Hrows & _).
+      assert (Hle : nlen (cache_get s id) <= nsec (dbs s)).
+      { pose proof (total_ge _ _ _ Le) as Hg. rewrite Hrows, nlen_tbl_of in Hg.
+        rewrite (inv_nsec meta s I). lia. }
+      cbv [store_revise2 transaction mbind stmt ret lift]. rewrite Le, Hrows.
+      rewrite (v2_diff_char _ _ _ _ Hle).
+      pose proof (v2_upserts_no_panic (stored (dbs s)) newroots [] (cache_get s id)) as Hp.
+      cbn [app nlen length N.of_nat] in Hp.
+      destruct (v2_upserts (stored (dbs s)) (tbl_of (cache_get s id)) 0 (cache_get s id) newroots None)
+        as [[? ?]| |]; [reflexivity|reflexivity|now elim Hp]. }
+    destruct fault as [k|]; [|exact H0].
+    exact (none_no_panic_fault s (Revise2 id c newroots mnew rsig hsig None) k H0).
+  - (* Renew2 *)
+    assert (H0 : is_panic_obs (snd (step s (Renew2 old new c mold wf None))) = false).
+    { cbn [step]. unfold outcome, m_renew2. destruct (negb wf); [reflexivity|]. unfold mbind.
+      destruct (store_get (t2 (dbs s)) old None) as [[e k0]|x|] eqn:Eg; [|reflexivity|].
+      2:{ exfalso. revert Eg. cbv [store_get transaction mbind stmt ret lift].
+          destruct (alookup old (t2 (dbs s))); discriminate. }
+      apply store_get_ok in Eg as [Le ->].
+      repeat match goal with |- context [if ?b then _ else _] => destruct b; [reflexivity|] end.
+      cbv [store_renew2 transaction mbind stmt ret lift].
+      destruct (alookup new (t2 (dbs s))); [reflexivity|].
+      match goal with |- context [alookup old ?tt] => destruct (alookup old tt) end; reflexivity. }
+    destruct fault as [k|]; [|exact H0].
+    exact (none_no_panic_fault s (Renew2 old new c mold wf None) k H0).
+  - (* Lock2 *) cbn [step]. destruct (mem id (locks s)); [reflexivity|]. destruct (alookup id (t2 (dbs s))); reflexivity.
+  - cbn [step]. unfold look. destruct (alookup id (t1 (dbs s))); reflexivity.
+  - cbn [step]. unfold look. destruct (alookup id (t2 (dbs s))); reflexivity.
+  - destruct D.
+  - destruct D.
 Qed.
 
 End Renew.
